@@ -11,6 +11,7 @@ import Adb.Model.Lists
 import Adb.Model.Url
 import Adb.Model.ContentBlocking
 import Adb.Model.CosmeticParse
+import Adb.Model.ScriptletAssembly
 /-
   One-line-in / one-line-out driver.  Every answer has the form  `M=<model> S=<spec> D=<0|1>`:
   the output of the model that mirrors the code, the output of the reference semantics, and whether
@@ -93,6 +94,31 @@ def parseCbItem (s : String) : Option CbItem :=
     pure (.cos { raw, hasAction := a == "1", scriptInject := sc == "1", unhide := u == "1", plain, locs })
   | _ => none
 
+/-- `name;aliases;kind;text;perm;deps` items joined by `|` -/
+def parseAsmStore (s : String) : Option Assembly.Store :=
+  if s == "-" then some [] else
+  (s.splitOn "|").mapM fun item =>
+    match item.splitOn ";" with
+    | [n, al, kind, text, perm, deps] => do
+      let n ← unhex n
+      let al ← unhexList al
+      let kind ← unhex kind
+      let text ← unoptHex text
+      let perm ← perm.toNat?
+      let deps ← unhexList deps
+      pure { name := n, aliases := al, kind := String.ofList kind, text, permission := perm, deps }
+    | _ => none
+
+def parseInjections (s : String) : Option (List (Str × Nat)) :=
+  if s == "-" then some [] else
+  (s.splitOn ",").mapM fun item =>
+    match item.splitOn ":" with
+    | [raw, m] => do
+      let raw ← unhex raw
+      let m ← m.toNat?
+      pure (raw, m)
+    | _ => none
+
 def showDots (l : List Hash) : String := ".".intercalate (l.map toString)
 
 /-- `type,http,https,supported,3p,url,hostname,srcHashes,tokens` -/
@@ -137,6 +163,12 @@ def step (line : String) : String :=
       ans (optHex (Removeparam.rewrittenUrl important url names))
           (optHex (Removeparam.spec important url names)) true
     | _, _ => "bad-op"
+  -- C18: assembly of the injected script from a resource store and (injection, permission) pairs
+  | ["sres", st, inj] => match parseAsmStore st, parseInjections inj with
+      | some st, some inj =>
+        let o := hex (Assembly.script st inj)
+        ans o o true
+      | _, _ => "bad-op"
   -- the cosmetic rule parser and the scriptlet-argument parser
   | ["cparse", l] => match unhex l with
       | some line =>
